@@ -289,8 +289,10 @@ pub fn apply_dev(img: &mut Vec<u8>, p: &Parsed, dev: Dev, sel: u16) -> bool {
             true
         }
         Dev::NumFatMany => {
-            put32(img, 44, [1000u32, 0x7fff_ffff, 0xffff_ffff, 110][sel as usize % 4]);
-            get32(img, 44) != p.header.num_fat
+            // (never the true count: written after another count deviation that would undo it)
+            let v = [1000u32, 0x7fff_ffff, 0xffff_ffff, 110][sel as usize % 4];
+            put32(img, 44, if v == p.header.num_fat { v + 7 } else { v });
+            true
         }
         Dev::NumDifatOff => {
             let v = [p.header.num_difat.wrapping_add(1), p.header.num_difat.wrapping_sub(1), 77, 0xffff_ffff][sel as usize % 4];
